@@ -401,7 +401,7 @@ func (s *Server) Format(ctx context.Context, params *protocol.DocumentFormatting
 		return nil, nil
 	}
 
-	journal, _ := parser.Parse(doc)
+	journal, parseErrs := parser.Parse(doc)
 
 	var commodityFormats map[string]formatter.NumberFormat
 	if s.workspace != nil {
@@ -415,7 +415,24 @@ func (s *Server) Format(ctx context.Context, params *protocol.DocumentFormatting
 		MinAlignmentColumn: settings.Formatting.MinAlignmentColumn,
 	}
 
-	return formatter.FormatDocumentWithOptions(journal, doc, commodityFormats, opts), nil
+	edits := formatter.FormatDocumentWithOptions(journal, doc, commodityFormats, opts)
+	if len(parseErrs) == 0 {
+		return edits, nil
+	}
+
+	// A line with a syntax error is left as written: rebuilding it from the syntax tree
+	// would drop the text the parser could not read, and the error with it.
+	errorLines := make(map[uint32]bool, len(parseErrs))
+	for _, e := range parseErrs {
+		errorLines[uint32(e.Pos.Line-1)] = true
+	}
+	kept := edits[:0]
+	for _, edit := range edits {
+		if !errorLines[edit.Range.Start.Line] {
+			kept = append(kept, edit)
+		}
+	}
+	return kept, nil
 }
 
 func applyChange(content string, r protocol.Range, text string) string {
